@@ -44,6 +44,7 @@ type hW struct {
 	locks   int
 	lastPan bool
 	lastMsg string
+	rec     *hRec // recording listener, if installed (C11)
 }
 
 func hIsRel(k int) bool { return k == uR1 || k == uR2 }
